@@ -10,8 +10,8 @@ from harness.world import World, random_world
 
 ASSUMPTIONS = [
     "strict oracle only for rules whose subjects and objects are pairwise unrelated in the hierarchy (RuleSem!Strict)",
-    "an import between a strict descendant of P and P itself may or may not count as 'something else' when the "
-    "subject is 'sub modules of P' (RuleSem!DontCare)",
+    "'sub modules of P' are P's strict descendants: an import between one of them and P itself is an import of (by) "
+    "something else, in both directions (until round 5 this corner was left open - DESIGN section 14, d8ba676)",
     "real architectures are built like the repository's tests build them (NetworkxGraph from modules + AbsoluteImport)",
     "the message parser accepts exactly the sentence forms of LANGUAGE_DEFINTION.md",
 ]
